@@ -499,7 +499,19 @@ impl Prop for C06 {
             };
         }
         match judge_text(env.db(), &tree, &text) {
-            Judged::Agree { obs } => fw::pass(nontrivial, obs),
+            Judged::Agree { obs } => {
+                // `to` binds loosest and groups left to right: the result of `... to u1 to u2` is a
+                // cast to u2, so it must be *expressed in* u2 (the SI normal form alone cannot tell
+                // a dropped last cast from a performed one)
+                if let Expr::To(_, u) = &tree {
+                    if let (Ok(Res::Ok { unit, unit_text, .. }), Ok(Res::Ok { unit: tu, unit_text: tt, .. })) = (obs::eval_one(env.db(), &text), obs::eval_one(env.db(), &format!("1 {u}"))) {
+                        if unit != tu {
+                            return fw::fail(format!("to-target-unit:{}", case.fam), format!("{text}: the last cast is to [{tt}] but the result is expressed in [{unit_text}]"));
+                        }
+                    }
+                }
+                fw::pass(nontrivial, obs)
+            }
             Judged::DontCare(r) => Verdict::DontCare(r),
             Judged::Mismatch(why) => fw::fail(sig(), why),
         }
